@@ -29,3 +29,16 @@ Fixpoint close_vec_tols (m : list Qc) (o : list Q) (tols : list Q) : bool :=
   | a :: m', b :: o', t :: tols' => Qle_bool (Qabs (this a - b)) t && close_vec_tols m' o' tols'
   | _, _, _ => false
   end.
+(* |m - o| <= rel*|m| + abs *)
+Fixpoint close_rel (m : list Qc) (o : list Q) (rel abs : Q) : bool :=
+  match m, o with
+  | [], [] => true
+  | a :: m', b :: o' => Qle_bool (Qabs (this a - b)) (rel * Qabs (this a) + abs) && close_rel m' o' rel abs
+  | _, _ => false
+  end.
+Fixpoint close_rel_mat (m : list (list Qc)) (o : list (list Q)) (rel abs : Q) : bool :=
+  match m, o with
+  | [], [] => true
+  | a :: m', b :: o' => close_rel a b rel abs && close_rel_mat m' o' rel abs
+  | _, _ => false
+  end.
